@@ -1,10 +1,156 @@
-import NasdaqModel.Model.Monitor
+import NasdaqModel.Lemmas.HeartbeatLemmas
+/-
+C08 — a logged-in session never stays silent longer than two heartbeat intervals of its own role.
+Only property theorems and their non-vacuity examples live here; the invariants are in Lemmas/MonitorLemmas.lean.
+
+Reading guide.  `login role cfg` is the session at the instant `start_heartbeats` is called (time 0); `run evs` folds the
+event list (`adv` = one grid unit passes and the timers due at the new instant fire, local one first; `send`, `sendHb`,
+`recv k`, `close`).  `s.writes` are the `transport.write` calls (newest first) with their instant, origin (`app` =
+application message, `appHb` = heartbeat message sent by the application itself, `mon` = heartbeat emitted by the local
+monitor) and whether the session was still open.  `s.life` = close instant, or now.
+All theorems hold for every event list, every configuration with intervals ≥ 1 grid unit, every role.
+-/
 namespace NasdaqModel.Props.C08
 open NasdaqModel.Monitor
 
-/-- every call site hands the session its own role's interval for the local monitor and the peer's for the remote one -/
+/-- heartbeat intervals of at least one grid unit (the grid can be as fine as one likes) -/
+def wfCfg (c : Cfg) : Bool := decide (1 ≤ c.clientI) && decide (1 ≤ c.serverI)
+
+example : wfCfg ⟨8, 16⟩ = true := by decide
+example : wfCfg ⟨1, 1⟩ = true := by decide
+
+private theorem own_pos (role : Role) (c : Cfg) (h : wfCfg c = true) : 1 ≤ ownInterval role c := by
+  simp [wfCfg] at h
+  cases role <;> simp [ownInterval] <;> omega
+
+/-- every call site of `start_heartbeats` hands the session its own role's interval for the local monitor and the
+    peer's for the remote one (client interval on client / FIX sessions, server interval on a server session) -/
 theorem C08_role (role : Role) (c : Cfg) :
     sessionIntervals role c = (ownInterval role c, peerInterval role c) := by
   cases role <;> rfl
+
+private theorem login_eq (role : Role) (c : Cfg) :
+    login role c = startWith (ownInterval role c) (peerInterval role c) 1 1 := by
+  simp [login, startHeartbeats, C08_role]
+
+/-- **C08_gap.**  From login until close, every window `(t, t + 2·I]` of two own-role intervals contains an outbound
+    write made while the session was open — hence so does every closed window `[t, t + 2·I]` of real time
+    (it contains `(⌈t⌉ - 1, ⌈t⌉ - 1 + 2·I]`).  Any send pattern, any arrivals, any close. -/
+theorem C08_gap (role : Role) (c : Cfg) (hc : wfCfg c = true) (evs : List Ev) (t : Nat)
+    (h : t + 2 * ownInterval role c ≤ ((login role c).run evs).life) :
+    ∃ w ∈ ((login role c).run evs).writes, w.live = true ∧ t < w.t ∧ w.t ≤ t + 2 * ownInterval role c := by
+  rw [login_eq] at h ⊢
+  exact (invL_run _ _ 1 1 (own_pos role c hc) (Nat.le_refl 1) evs).cov t h
+
+/-- the same for any pair of intervals and any tolerance ≤ 1 of the local monitor (0 behaves as 1) -/
+theorem C08_gap_generic (l r tl tr : Nat) (hl : 1 ≤ l) (htl : tl ≤ 1) (evs : List Ev) (t : Nat)
+    (h : t + 2 * l ≤ ((startWith l r tl tr).run evs).life) :
+    ∃ w ∈ ((startWith l r tl tr).run evs).writes, w.live = true ∧ t < w.t ∧ w.t ≤ t + 2 * l :=
+  (invL_run l r tl tr hl htl evs).cov t h
+
+set_option maxRecDepth 100000 in
+/-- non-vacuity: an idle client with interval 4 lives 20 units (the peer interval is far away) and the window (9, 17]
+    contains its heartbeats at 12 and 16 -/
+example : 9 + 2 * ownInterval .soupClient ⟨4, 100⟩ ≤ ((login .soupClient ⟨4, 100⟩).run (List.replicate 20 .adv)).life := by decide
+
+set_option maxRecDepth 100000 in
+/-- non-vacuity of the tick-by-tick theorems: a FIX session with interval 4 whose application sends once at 5 —
+    no heartbeat at 8 (a send in [4, 8)), exactly one at 12 and at 16 -/
+example :
+    let s := (login .fix ⟨4, 100⟩).run ([.adv, .adv, .adv, .adv, .adv, .send] ++ List.replicate 15 .adv)
+    s.life = 20 ∧ monCount s.writes 8 = 0 ∧ monCount s.writes 12 = 1 ∧ monCount s.writes 16 = 1 ∧
+      due 4 s.life s.writes 12 = true ∧ appIn s.writes 4 8 = true := by decide
+
+/-- **C08_hb_exactly.**  The number of monitor heartbeats written at instant `T` is 1 if `T` is a tick of the own-role
+    interval from the second one on, the session lived until `T`, and the application wrote nothing in `[T - I, T)`;
+    otherwise it is 0. -/
+theorem C08_hb_exactly (role : Role) (c : Cfg) (hc : wfCfg c = true) (evs : List Ev) (T : Nat) :
+    monCount ((login role c).run evs).writes T
+      = (due (ownInterval role c) ((login role c).run evs).life ((login role c).run evs).writes T).toNat := by
+  rw [login_eq]
+  exact (invT_run _ _ 1 1 (own_pos role c hc) (Nat.le_refl 1) evs).mon T
+
+/-- **C08_idle_one_per_interval.**  When the application has been idle for one interval before a tick `T = k·I`
+    (`k ≥ 2`) that the session lives to see, the monitor emits exactly one heartbeat at `T`, and it is written on the
+    open session. -/
+theorem C08_idle_one_per_interval (role : Role) (c : Cfg) (hc : wfCfg c = true) (evs : List Ev) (T : Nat)
+    (hdvd : ownInterval role c ∣ T) (h2 : 2 * ownInterval role c ≤ T) (hlife : T ≤ ((login role c).run evs).life)
+    (hidle : ∀ w ∈ ((login role c).run evs).writes, w.origin = .app → ¬ (T - ownInterval role c ≤ w.t ∧ w.t < T)) :
+    monCount ((login role c).run evs).writes T = 1 ∧
+      ∃ w ∈ ((login role c).run evs).writes, w.origin = .mon ∧ w.t = T ∧ w.live = true := by
+  have hcount : monCount ((login role c).run evs).writes T = 1 := by
+    rw [C08_hb_exactly role c hc evs T]
+    have : appIn ((login role c).run evs).writes (T - ownInterval role c) T = false := (appIn_false_iff _ _ _).mpr hidle
+    simp [due, hdvd, h2, hlife, this]
+  refine ⟨hcount, ?_⟩
+  obtain ⟨w, hm, ho, ht⟩ := exists_of_monCount_pos ((login role c).run evs).writes T (by omega)
+  refine ⟨w, hm, ho, ht, ?_⟩
+  have := invT_run (ownInterval role c) (peerInterval role c) 1 1 (own_pos role c hc) (Nat.le_refl 1) evs
+  rw [← login_eq] at this
+  exact this.monLive w hm ho
+
+/-- a session whose application never sends anything emits one heartbeat at every tick from the second one on -/
+theorem C08_idle_forever (role : Role) (c : Cfg) (hc : wfCfg c = true) (evs : List Ev) (hno : ∀ e ∈ evs, e ≠ .send)
+    (k : Nat) (hk : 2 ≤ k) (hlife : k * ownInterval role c ≤ ((login role c).run evs).life) :
+    monCount ((login role c).run evs).writes (k * ownInterval role c) = 1 := by
+  have hnoapp : ∀ w ∈ ((login role c).run evs).writes, w.origin ≠ .app :=
+    no_app_writes evs (login role c) hno (by simp [login, startHeartbeats, startWith])
+  refine (C08_idle_one_per_interval role c hc evs _ (Nat.dvd_mul_left _ _) ?_ hlife ?_).1
+  · exact Nat.mul_le_mul_right _ hk
+  · intro w hw ho; exact absurd ho (hnoapp w hw)
+
+/-- **C08_no_hb_if_recent_send.**  A monitor heartbeat at `T` means the application wrote nothing in `[T - I, T)`:
+    no heartbeat is emitted while the application has sent something within the last interval. -/
+theorem C08_no_hb_if_recent_send (role : Role) (c : Cfg) (hc : wfCfg c = true) (evs : List Ev) (w a : Write)
+    (hw : w ∈ ((login role c).run evs).writes) (hwo : w.origin = .mon)
+    (ha : a ∈ ((login role c).run evs).writes) (hao : a.origin = .app) :
+    ¬ (w.t - ownInterval role c ≤ a.t ∧ a.t < w.t) := by
+  have h1 := monCount_pos_of_mem _ w hw hwo
+  rw [C08_hb_exactly role c hc evs w.t] at h1
+  have hd : due (ownInterval role c) ((login role c).run evs).life ((login role c).run evs).writes w.t = true := by
+    cases h : due (ownInterval role c) ((login role c).run evs).life ((login role c).run evs).writes w.t with
+    | true => rfl
+    | false => simp [h] at h1
+  simp only [due, Bool.and_eq_true, Bool.not_eq_true', decide_eq_true_eq] at hd
+  exact (appIn_false_iff _ _ _).mp hd.2 a ha hao
+
+/-- monitor heartbeats are written only at ticks `k·I`, `k ≥ 2`, within the session's life, on the open session, and
+    at most one per tick ("one per interval") -/
+theorem C08_hb_only_at_ticks (role : Role) (c : Cfg) (hc : wfCfg c = true) (evs : List Ev) (w : Write)
+    (hw : w ∈ ((login role c).run evs).writes) (hwo : w.origin = .mon) :
+    ownInterval role c ∣ w.t ∧ 2 * ownInterval role c ≤ w.t ∧ w.t ≤ ((login role c).run evs).life ∧ w.live = true ∧
+      monCount ((login role c).run evs).writes w.t = 1 := by
+  have h1 := monCount_pos_of_mem _ w hw hwo
+  have h2 := C08_hb_exactly role c hc evs w.t
+  have hd : due (ownInterval role c) ((login role c).run evs).life ((login role c).run evs).writes w.t = true := by
+    cases h : due (ownInterval role c) ((login role c).run evs).life ((login role c).run evs).writes w.t with
+    | true => rfl
+    | false => rw [h] at h2; simp at h2; omega
+  have hlive : w.live = true := by
+    have := invT_run (ownInterval role c) (peerInterval role c) 1 1 (own_pos role c hc) (Nat.le_refl 1) evs
+    rw [← login_eq] at this
+    exact this.monLive w hw hwo
+  rw [hd] at h2
+  simp only [due, Bool.and_eq_true, Bool.not_eq_true', decide_eq_true_eq] at hd
+  exact ⟨hd.1.1.1, hd.1.1.2, hd.1.2, hlive, by simpa using h2⟩
+
+/-- **C08_hb_is_not_activity.**  Writing a heartbeat — by the monitor or by the application — leaves both monitors
+    exactly as they were (no ping), … -/
+theorem C08_hb_is_not_activity (s : Sess) (o : Origin) (ho : o.isHb = true) :
+    (s.sendMsg o).loc = s.loc ∧ (s.sendMsg o).rem = s.rem := by
+  simp [ho]
+
+/-- … so after a heartbeat at tick `T` (and whatever other heartbeats were written since) an application that stays
+    idle gets the next heartbeat at `T + I` -/
+theorem C08_hb_then_idle_hb_again (role : Role) (c : Cfg) (hc : wfCfg c = true) (evs : List Ev) (w : Write)
+    (hw : w ∈ ((login role c).run evs).writes) (hwo : w.origin = .mon)
+    (hlife : w.t + ownInterval role c ≤ ((login role c).run evs).life)
+    (hidle : ∀ a ∈ ((login role c).run evs).writes, a.origin = .app → ¬ (w.t ≤ a.t ∧ a.t < w.t + ownInterval role c)) :
+    monCount ((login role c).run evs).writes (w.t + ownInterval role c) = 1 := by
+  obtain ⟨hd, h2, _, _, _⟩ := C08_hb_only_at_ticks role c hc evs w hw hwo
+  refine (C08_idle_one_per_interval role c hc evs _ (Nat.dvd_add hd (Nat.dvd_refl _)) (by omega) hlife ?_).1
+  intro a ha hao
+  have := hidle a ha hao
+  omega
 
 end NasdaqModel.Props.C08
